@@ -212,6 +212,21 @@ def cases():
                     txt = 'PT0S'
                 lit = p.strftime('%Y-%m-%dT%H:%M:%S')
                 out.append(('date and time("%s@%s") - date and time("%sZ")' % (lit, zn, lit), sign + txt))
+        # zone identifiers spelled with digits, '+' or '-' (Etc/GMT+5, America/Port-au-Prince, EST5EDT, ...): accepted like any other
+        odd = sorted(zn for zn in zoneinfo.available_timezones() if any(ch.isdigit() or ch in '+-' for ch in zn) and not zn.startswith(('posix', 'right')))
+        for zn in odd:
+            z = zoneinfo.ZoneInfo(zn)
+            for p in (datetime.datetime(2020, 1, 15, 12, 0), datetime.datetime(2020, 7, 15, 12, 0)):
+                a = p.replace(tzinfo=z)
+                s = -int(a.utcoffset().total_seconds())
+                sign = '-' if s < 0 else ''
+                s = abs(s)
+                txt = 'PT' + ('%dH' % (s // 3600) if s // 3600 else '') + ('%dM' % (s % 3600 // 60) if s % 3600 // 60 else '')
+                if txt == 'PT':
+                    txt = 'PT0S'
+                lit = p.strftime('%Y-%m-%dT%H:%M:%S')
+                out.append(('date and time("%s@%s") - date and time("%sZ")' % (lit, zn, lit), sign + txt))
+            out.append(('string(time("10:20:30@%s"))' % zn, '"10:20:30@%s"' % zn))
     except Exception as e:   # no zone data on this machine: the zone part is skipped and said so
         out.append(('"zoneinfo unavailable: %s"' % type(e).__name__, '"zoneinfo unavailable: %s"' % type(e).__name__))
     return out
